@@ -13,7 +13,7 @@
 From Coq Require Import NArith ZArith List Bool.
 From ST Require Import Base.Outcome Base.Units Utf.Spec Utf.Tokens Utf.Model Utf.ProofsGeneric Utf.ProofsC01 Utf.ProofsC02 Utf.ApiCoverage.
 From ST Require Utf.LeafBridge Gen.Leaf.
-From ST Require Utf.LoopBridge Utf.LoopBridgeValidate Utf.LoopBridgeExtract.
+From ST Require Utf.LoopBridge Utf.LoopBridgeValidate Utf.LoopBridgeExtract Utf.LoopBridgeWrite Utf.LoopBridgeConvert32.
 Import ListNotations.
 Local Open Scope N_scope.
 
@@ -184,3 +184,18 @@ Proof.
                                  (fun A => ST.Utf.LoopBridgeExtract.extract_utf16_matches s i p Hne A R)).
 Qed.
 Print Assumptions decoders_match_source.
+
+(* ---- tie by translation, a whole conversion pass with its validation modes: utf16_convert_from_utf32(dest, utf32, size,
+   validation), the second pass of ST::utf32_to_utf16 and of the wchar_t aliases, is translated from the CURRENT headers
+   (dest is a write-only cursor handed to the translated encoder write_utf16).  For inputs of any length, every mode and
+   enough fuel it returns the conversion_error_t and stores exactly the units that the model pass of every theorem above
+   returns and pushes, given room: under check_validity it stops at the first unit above 0x10FFFF with out_of_range,
+   otherwise it stores U+FFFD for it and goes on ---- *)
+Theorem utf32_to_utf16_pass_matches_source : forall l m fuel, all_lt 4294967296 l = true -> (length l < fuel)%nat ->
+  exists e ws,
+    ST.Gen.Leaf.src_utf16_convert_from_utf32 fuel (ST.Utf.LoopBridge.arr32 l) (Z.of_nat (length l)) (ST.Utf.LoopBridgeConvert32.mode_code m)
+      = Some (Z.of_N (cerr_code e), ws) /\
+    forall d : dst, (length ws <= fst d)%nat ->
+      utf16_convert_from_utf32 d l m = Ok (e, ((fst d - length ws)%nat, rev (map ST.Utf.LoopBridgeWrite.unit16_of ws) ++ snd d)).
+Proof. exact ST.Utf.LoopBridgeConvert32.utf16_convert_from_utf32_matches_source. Qed.
+Print Assumptions utf32_to_utf16_pass_matches_source.
